@@ -206,6 +206,10 @@ func genOp(rng *rand.Rand, p E2E, conn, caller int, counter uint64) *Op {
 		// truly in parallel
 		o.Spec.DelayUs = []uint32{0, 500, 1000}[rng.Intn(3)]
 	}
+	if rng.Intn(12) == 0 {
+		// a reply with no content at all
+		o.Spec.Flags |= svc.FlagEmptyReply
+	}
 	// frames just below and above the configured buffer sizes (between a
 	// size that is not a pool size class and the capacity of its class)
 	if p.Cfg.SrvBuf > 64 && rng.Intn(5) == 0 {
